@@ -85,4 +85,15 @@ if os.environ.get('VERIF_INTERPOSE') and '--resume-layer' not in sys.argv:
 
 if __name__ == '__main__':
     import zope.testrunner
+    _n = int(os.environ.get('VERIF_RUN_TIMES', '0') or 0)
+    if _n > 1 and '--resume-layer' not in sys.argv:
+        # several runs, one after the other, in this one process (what a run
+        # leaves behind in the process - environment, module-level state,
+        # imported test modules - is there for the next one); RunBoundary
+        # events separate their traces
+        _failed = False
+        for _i in range(_n):
+            _failed = zope.testrunner.run_internal([], list(sys.argv))
+            _emit('RunBoundary', n=_i + 1)
+        sys.exit(int(bool(_failed)))
     zope.testrunner.run()
